@@ -105,6 +105,12 @@ func resolveDispatch(c *chk.Ctx) *dispatchModel {
 		if sig.Results().Len() == 2 && sig.Results().At(0).Type().String() == "int" && sig.Results().At(1).Type().String() == "int" {
 			d.numToDo = f
 		}
+		// or the two counts as one small struct
+		if sig.Results().Len() == 1 {
+			if st, ok := sig.Results().At(0).Type().Underlying().(*types.Struct); ok && st.NumFields() == 2 && st.Field(0).Type().String() == "int" && st.Field(1).Type().String() == "int" {
+				d.numToDo = f
+			}
+		}
 	}
 	// the delivery call: the call that is handed the response builder's result
 	if d.responses != nil {
@@ -166,11 +172,25 @@ func resolveDispatch(c *chk.Ctx) *dispatchModel {
 		d.checkAssign = c.P.RegionRoot(d.allocFn, d.setContext)
 	}
 	// the prepare function: the smallest region that checks/assigns, counts and takes the barrier
+	// (the barrier wait may be inlined into it)
 	if d.checkAssign != nil && d.barrier != nil && d.numToDo != nil {
 		var fs []*ssa.Function
-		for _, g := range []*ssa.Function{d.checkAssign, d.barrier, d.numToDo} {
+		inlineBarrier := false
+		for _, g := range []*ssa.Function{d.checkAssign, d.numToDo} {
 			for _, s := range c.P.Callers(g) {
 				if !c.P.InExt(g, s.Caller) {
+					fs = append(fs, s.Caller)
+					if s.Caller == d.barrier {
+						inlineBarrier = true
+					}
+				}
+			}
+		}
+		if inlineBarrier {
+			fs = append(fs, d.barrier)
+		} else {
+			for _, s := range c.P.Callers(d.barrier) {
+				if !c.P.InExt(d.barrier, s.Caller) {
 					fs = append(fs, s.Caller)
 				}
 			}
@@ -308,7 +328,7 @@ func ruleInvokeSites(c *chk.Ctx, d *dispatchModel) {
 						continue
 					}
 					fa, isFA := st.Addr.(*ssa.FieldAddr)
-					if !isFA || ir.FieldOwner(fa) != c.M.Task || ir.NormCell(fa.X) != task {
+					if !isFA || ir.FieldOwner(fa) != c.M.Task || c.P.Canon(fa.X) != task {
 						ok = false
 						continue
 					}
@@ -337,9 +357,10 @@ func ruleInvokeSites(c *chk.Ctx, d *dispatchModel) {
 			"a task that already failed validation (err != nil) can reach the handler invocation")
 		// the site's anchors in the dispatch closure: the instructions of the closure through
 		// which it is reached (the call itself, a go statement, or a helper call)
+		loopFn := taskLoopFunc(c, d)
 		var anchors func(at ssa.Instruction, depth int)
 		anchors = func(at ssa.Instruction, depth int) {
-			if at.Parent() == d.closure {
+			if at.Parent() == loopFn {
 				siteBlocks = append(siteBlocks, at.Block())
 				return
 			}
@@ -427,6 +448,12 @@ func ruleNumToDo(c *chk.Ctx, d *dispatchModel) {
 							if k := walk(ld); k >= 0 {
 								return k
 							}
+						}
+					}
+					// a field of the result struct
+					if fa, ok := y.Addr.(*ssa.FieldAddr); ok && y.Val == x {
+						if _, isAl := fa.X.(*ssa.Alloc); isAl {
+							return fa.Field
 						}
 					}
 				}
@@ -520,9 +547,9 @@ func ruleDeliverAfterJoin(c *chk.Ctx, d *dispatchModel) {
 	cl := d.closure
 	// the WaitGroup waited before deliver
 	var wait *ssa.Call
-	ir.Instrs(cl, func(ins ssa.Instruction) {
+	c.P.ExtInstrs(cl, func(ins ssa.Instruction) {
 		if call, ok := ins.(*ssa.Call); ok {
-			if id, ok := wgCall(call, "Wait"); ok && strings.HasPrefix(id, "local:") && ir.InstrDominates(call, d.deliverCall) {
+			if id, ok := wgCall(call, "Wait"); ok && strings.HasPrefix(id, "local:") && c.P.IDominates(call, d.deliverCall) {
 				wait = call
 			}
 		}
@@ -534,7 +561,7 @@ func ruleDeliverAfterJoin(c *chk.Ctx, d *dispatchModel) {
 		c.Pass("PAIR.join", cl, "Wait before delivery", d.deliverCall.Pos(), "delivery is dominated by %s.Wait() at %s", id, c.P.Pos(wait.Pos()))
 		// every goroutine in the closure that invokes a handler is tracked by that WaitGroup
 		for _, gc := range classifyGo(c) {
-			if gc.g.Parent() != cl {
+			if gc.g.Parent() != cl && !c.P.InExt(cl, gc.g.Parent()) {
 				continue
 			}
 			invokes := false
@@ -1052,7 +1079,8 @@ func ruleBarrier(c *chk.Ctx, d *dispatchModel) {
 		c.Fail("PAIR.barrier", bf, "wait then add", bf.Pos(), "the barrier function does not both Wait on and Add to the notification barrier")
 	} else {
 		_, isParam := add.Call.Args[1].(*ssa.Parameter)
-		okOrder := ir.InstrDominates(wait, add) && isParam
+		inline := bf == d.prepare
+		okOrder := ir.InstrDominates(wait, add) && (isParam || (inline && isNotesCount(c, d, add.Call.Args[1])))
 		allRet := ir.AllReturnsDominatedBy(wait) && ir.AllReturnsDominatedBy(add)
 		c.Check(okOrder && allRet, "PAIR.barrier", bf, "wait then add", wait.Pos(), "every path through the barrier function waits for outstanding notifications, then adds its parameter",
 			"some path through the barrier function skips the Wait (or the Add), or Add precedes Wait, or the amount added is not the parameter: a later request could start while an earlier notification is still running")
@@ -1068,21 +1096,18 @@ func ruleBarrier(c *chk.Ctx, d *dispatchModel) {
 			bcall = ci
 		}
 	})
-	if bcall == nil {
+	if bf == d.prepare && wait != nil && add != nil {
+		// the barrier is taken inline in the prepare function: covered by "wait then add" above
+		c.Pass("PAIR.barrier", d.prepare, "barrier taken synchronously", wait.Pos(), "the barrier is waited on and raised inline in the prepare function, on every path")
+		c.Pass("PAIR.barrier", d.prepare, "barrier amount", wait.Pos(), "the amount added is the counting function's notification count")
+	} else if bcall == nil {
 		c.Fail("PAIR.barrier", d.prepare, "barrier taken synchronously", d.prepare.Pos(), "the function that prepares a batch does not call the barrier function")
 	} else {
 		_, isCall := bcall.(*ssa.Call)
 		allRet := ir.AllReturnsDominatedBy(bcall)
 		c.Check(isCall && allRet, "PAIR.barrier", d.prepare, "barrier taken synchronously", bcall.Pos(), "a plain call (not go/defer) dominating every return of the prepare function",
 			"the barrier is not taken synchronously on every path before the batch's closure is handed out")
-		arg := bcall.Common().Args[1]
-		okArg := false
-		if e, ok := arg.(*ssa.Extract); ok && e.Index == 1 {
-			if call, ok := e.Tuple.(*ssa.Call); ok && call.Call.StaticCallee() == d.numToDo {
-				okArg = true
-			}
-		}
-		c.Check(okArg, "PAIR.barrier", d.prepare, "barrier amount", bcall.Pos(), "the amount added is the counting function's notification count (second result)", "the amount added to the barrier is not the notification count of the counting function: handlers' Done calls would not match")
+		c.Check(isNotesCount(c, d, bcall.Common().Args[1]), "PAIR.barrier", d.prepare, "barrier amount", bcall.Pos(), "the amount added is the counting function's notification count (second result)", "the amount added to the barrier is not the notification count of the counting function: handlers' Done calls would not match")
 	}
 	// chain loop → dequeue → prepare has no go/defer in between: prepare is called by a plain call from the function that dequeues
 	for _, s := range c.P.Callers(d.prepare) {
@@ -1341,8 +1366,16 @@ func ruleHandlerFromAssigner(c *chk.Ctx, d *dispatchModel) {
 		good := false
 		if isCall && call.Call.StaticCallee() != nil && ir.RecvNamed(call.Call.StaticCallee()) == c.M.Server && len(call.Call.Args) == 3 {
 			t1, f1, ok1 := taskFieldLoad(c, call.Call.Args[1])
+			if !ok1 {
+				// the very value that is stored into this task's context
+				c.P.ExtInstrs(f, func(i2 ssa.Instruction) {
+					if s2, isSt := i2.(*ssa.Store); isSt && chk.IsField(s2.Addr, c.M.TCtx) && ir.SameValue(s2.Val, call.Call.Args[1]) && c.P.Canon(s2.Addr.(*ssa.FieldAddr).X) == task {
+						t1, f1, ok1 = task, c.M.TCtx, true
+					}
+				})
+			}
 			okM := false
-			if u, ok := call.Call.Args[2].(*ssa.UnOp); ok {
+			if u, ok := ir.NormCell(call.Call.Args[2]).(*ssa.UnOp); ok {
 				if fa2, ok := u.X.(*ssa.FieldAddr); ok && ir.FieldVar(fa2) == c.M.QMethod {
 					if t2, f2, ok2 := taskFieldLoad(c, fa2.X); ok2 && f2 == c.M.THreq && t2 == task {
 						okM = true
@@ -1642,4 +1675,29 @@ func invokeSiteTask(c *chk.Ctx, s ssa.CallInstruction) ssa.Value {
 		}
 	}
 	return nil
+}
+
+
+// isNotesCount: v is the counting function's notification count: its second
+// result, or the second field of its result struct.
+func isNotesCount(c *chk.Ctx, d *dispatchModel, v ssa.Value) bool {
+	if e, ok := v.(*ssa.Extract); ok && e.Index == 1 {
+		if call, ok := e.Tuple.(*ssa.Call); ok && call.Call.StaticCallee() == d.numToDo {
+			return true
+		}
+	}
+	if base, fv, ok := projection(v); ok && fv != nil {
+		b := ir.NormCell(base)
+		if al, isAl := b.(*ssa.Alloc); isAl {
+			if sts := ir.CellStores(al); len(sts) == 1 {
+				b = ir.NormCell(sts[0].Val)
+			}
+		}
+		if call, isCall := b.(*ssa.Call); isCall && call.Call.StaticCallee() == d.numToDo {
+			if st, isSt := call.Type().Underlying().(*types.Struct); isSt && st.NumFields() == 2 && st.Field(1) == fv {
+				return true
+			}
+		}
+	}
+	return false
 }
